@@ -561,11 +561,11 @@ def run_check(prop, suites, tier, seed, level_note, trusted_extra=(), replay=Non
                     _gen.CURRENT = c if isinstance(c, dict) else {}
                     # a case that does not come back (a loop that never ends in the library) is a violation with the input as replay,
                     # not a check that hangs
+                    limit = int(getattr(suite, "case_timeout", 120))
                     if _CRUMB and getattr(suite, "breadcrumbs", True):
                         with open(_CRUMB, "w") as _f:
-                            json.dump({"suite": suite.name, "case": c}, _f, default=str)
+                            json.dump({"suite": suite.name, "case": c, "phase": "case", "limit": limit}, _f, default=str)
                     signal.signal(signal.SIGALRM, _on_alarm)
-                    limit = int(getattr(suite, "case_timeout", 120))
                     signal.alarm(limit)
                     # the alarm cannot interrupt native code (a jitted loop that never ends): a watchdog thread then reports the
                     # case itself and ends the process
@@ -601,6 +601,12 @@ def run_check(prop, suites, tier, seed, level_note, trusted_extra=(), replay=Non
                 cos.append((c, o))
                 if nt:
                     distinct.add(canon_hash([suite.name, c]))
+            if _CRUMB:
+                try:
+                    with open(_CRUMB, "w") as _f:      # no case is being run any more (the supervisor must not take what follows for a stall)
+                        json.dump({"suite": suite.name, "phase": "evaluating"}, _f)
+                except Exception:
+                    pass
             total += len(cos) + len(crashed)
             for c, o in crashed:
                 violations.append(("spec", suite, c, o, None))
@@ -761,14 +767,34 @@ def main(prop, suites, level_note, trusted_extra=(), rule="", gen_targets=()):
             os.remove(crumb)
         env = dict(os.environ, VERIF_CHILD="1", VERIF_BREADCRUMB=crumb)
         p = subprocess.Popen([sys.executable, "-u"] + sys.argv, env=env, stdout=subprocess.PIPE, stderr=subprocess.STDOUT, text=True)
-        verdict = False
-        for line in p.stdout:
-            sys.stdout.write(line)
-            sys.stdout.flush()
-            if line.startswith(f"[{prop}] tier=") or line.startswith("VIOLATION property="):
-                verdict = True
+        state = {"verdict": False}
+
+        def forward():
+            for line in p.stdout:
+                sys.stdout.write(line)
+                sys.stdout.flush()
+                if line.startswith(f"[{prop}] tier=") or line.startswith("VIOLATION property="):
+                    state["verdict"] = True
+        reader = threading.Thread(target=forward, daemon=True)
+        reader.start()
+        stalled = False
+        while p.poll() is None:
+            time.sleep(2)
+            # a case that never comes back from native code (a jitted loop that does not end holds the interpreter lock: neither the
+            # alarm nor a watchdog thread of the child can run): the child is killed from here and the case is the replay
+            try:
+                info_now = json.load(open(crumb))
+                age = time.time() - os.path.getmtime(crumb)
+            except Exception:
+                continue
+            if info_now.get("phase") == "case" and age > float(info_now.get("limit", 120)) + 90:
+                stalled = True
+                p.kill()
+                break
         rc = p.wait()
-        if rc in (0, 1) and (verdict or rc == 0):
+        reader.join(timeout=10)
+        verdict = state["verdict"]
+        if not stalled and rc in (0, 1) and (verdict or rc == 0):
             sys.exit(rc)
         os.makedirs(os.path.join(REPLAYS, prop), exist_ok=True)
         path = os.path.join(REPLAYS, prop, f"{seed}-died.json")
@@ -779,8 +805,10 @@ def main(prop, suites, level_note, trusted_extra=(), rule="", gen_targets=()):
             pass
         with open(path, "w") as f:
             json.dump({"property": prop, "kind": "spec" if info else "harness", "suite": info.get("suite"), "case": info.get("case"),
-                       "observed": {"harness_exception": "ProcessDied", "trace": f"the checking process ended with status {rc} without a verdict"
-                                    + (" while running this case" if info else " before any case was run")},
+                       "observed": ({"harness_exception": "NoAnswerWithinTimeLimit", "trace": "the case did not come back (stuck in native code): the "
+                                     f"checking process was killed {int(info.get('limit', 120)) + 90} s after it started the case"} if stalled else
+                                    {"harness_exception": "ProcessDied", "trace": f"the checking process ended with status {rc} without a verdict"
+                                     + (" while running this case" if info else " before any case was run")}),
                        "rerun": f"./check {prop} --replay {path}"}, f, indent=1, default=str)
         print(f"VIOLATION property={prop} replay={path}" + ("" if info else " no-failing-input-found"))
         sys.exit(1)
